@@ -9,7 +9,9 @@ use rayon::prelude::*;
 use serde_json::json;
 use std::collections::BTreeMap;
 
-const NUMS: [(&str, u64); 7] = [
+const NUMS: [(&str, u64); 9] = [
+    ("  5", 5),
+    ("\t 10", 10),
     ("0", 0),
     ("00", 0),
     ("000000000000000000000000000010", 10),
@@ -187,7 +189,7 @@ pub fn run(thorough: bool) -> Report {
     if thorough || true {
         // Every sequence of <= L edits over three keys (no dedup): order irrelevance is
         // checked on every permutation rather than inferred from merged states.
-        let keys = [0usize, 2, 6]; // "0", a 30-digit spelling of 10, u64::MAX
+        let keys = [2usize, 4, 8]; // "0", a 30-digit spelling of 10, u64::MAX
         let l = if thorough { 6 } else { 4 };
         let evs: Vec<(usize, usize)> = keys.iter().flat_map(|k| (0..TEXTS.len()).map(move |t| (*k, t))).collect();
         let base = evs.len() as u64;
